@@ -538,6 +538,7 @@ contract(F, 'Table.nnz', tier='A', props=['C05', 'C16', 'C19'],
 
 contract(F, 'Table.sum', tier='A', props=['C19', 'C05'],
     types={'self': 'Obj:Table', 'axis': 'Str'},
+    returns='Arr[Real]|Real',       # per-axis totals, or the grand total
     ensures=[
         # 'sample' -> one total per sample (column sums), 'observation' -> row sums, 'whole' -> grand total
         "implies(old(axis) == 'sample', len(result) == self._data.shape[1] and all(result[j] == colsum(self._data, j) for j in range(self._data.shape[1])))",
@@ -811,12 +812,12 @@ contract(F, 'Table.__eq__', tier='A', props=['C16'],
     modifies=['self._data', 'self._data.*'])
 
 contract(F, 'Table.__ne__', tier='A', props=['C16'],
-    types={'self': 'Obj:Table', 'other': 'Obj:Table'}, requires=EQ_REQ,
+    types={'self': 'Obj:Table', 'other': 'Obj:Table'}, requires=EQ_REQ, returns='Bool',
     ensures=["result == (not (%s))" % SAME_CONTENT],
     modifies=['self._data', 'self._data.*'])
 
 contract(F, 'Table.descriptive_equality', tier='A', props=['C16'],
-    types={'self': 'Obj:Table', 'other': 'Obj:Table'}, requires=EQ_REQ,
+    types={'self': 'Obj:Table', 'other': 'Obj:Table'}, requires=EQ_REQ, returns='Str',
     ensures=["(result == 'Tables appear equal') == (%s)" % SAME_CONTENT],
     modifies=['self._data', 'self._data.*'])
 
@@ -825,7 +826,7 @@ contract(F, 'Table.is_empty', tier='P', props=['C05'],
     ensures=["result == (len(self._sample_ids) == 0 or len(self._observation_ids) == 0)"], modifies=[])
 
 contract(F, 'Table.get_table_density', tier='A', props=['C19', 'C05'],
-    types={'self': 'Obj:Table'},
+    types={'self': 'Obj:Table'}, returns='Real',
     ensures=["implies(len(self._sample_ids) > 0 and len(self._observation_ids) > 0, "
              "        result * (len(self._sample_ids) * len(self._observation_ids)) == nnz_true(self._data))",
              "implies(len(self._sample_ids) == 0 or len(self._observation_ids) == 0, result == 0)"],
